@@ -15,6 +15,8 @@ CONFIG = {'assumptions': [
     'DWARFInfo is built directly over BytesIO sections (DebugSectionDescriptor), one stream per section; all sections '
     'are present except that .debug_types is absent (debug_types_sec=None) in a generated share of the files without v4 '
     'type units -- the model represents an absent .debug_types as an empty one; no supplementary DWARF object',
+    'the kind of stream and the lifetime of owner objects are dimensions of the correspondence only: every stream kind '
+    'presents the same bytes and the stateless model gains no-op steps, so spec and model answers do not depend on them',
     'tag / attribute / form display names are the ones the library tables give (C17 decides the tables); a number '
     'without a name is reported as the integer',
     'domain (certified per case by the Coq wf check through the driver): versions 2-5, standard forms of DWARF 5 '
@@ -67,7 +69,11 @@ RULE = ('cases: (a) one_form: one unit, one entry, one attribute of each standar
         'Abbreviation tables declare their codes in no particular order (the root\'s declaration anywhere, small codes after '
         'large ones).  Every world carries a history of by-offset accesses (get_CU_at of the last unit first / of arbitrary '
         'units in any order): all observations (iter_CUs, entries, children, parents, references) are taken on fresh objects '
-        'and again on objects that first served that history. '
+        'and again on objects that first served that history.  Environment (element 13 of the abstract): every section stream '
+        'of a case is of one kind drawn from tools/lib/streams.py (BytesIO, real files fresh / warm / at EOF / 16-byte '
+        'buffer, mmap, gzip, decoy fileno; ~20 % non-BytesIO for one_form, ~45 % for worlds), and in ~8 % / ~45 % of the '
+        'cases the second pass drops owners while their children are still queried: del DWARFInfo + gc.collect() after '
+        'list(iter_CUs()/iter_TUs()), optionally also each unit after list(iter_DIEs()). '
         'distinct = hash(kind, abstract); non-trivial = at least two entries or an attribute')
 
 STD_FORMS = [0x01, 0x02, 0x03, 0x04, 0x05, 0x06, 0x07, 0x08, 0x09, 0x0a, 0x0b, 0x0c, 0x0d, 0x0e, 0x0f, 0x10, 0x11, 0x12, 0x13,
@@ -1012,7 +1018,7 @@ def classify(impl, spec, hint=None):
         if _is_err(impl[3]):
             return 'after-history/raises-%s' % impl[3][1], (impl[3], '...')
         if impl[:2] == spec[:2] and len(impl[3]) == 2 and len(spec[3]) == 2:
-            k, d = classify(impl[3], spec[3], hint)
+            k, d = classify(impl[3], spec[3], None)
             return 'after-history/' + str(k), d
     if len(impl) > 2 and len(spec) > 2 and impl[2] != spec[2]:
         for ie, se in zip(impl[2], spec[2]):
@@ -1026,7 +1032,28 @@ def classify(impl, spec, hint=None):
 
 def evaluate(ctx, cases):
     from tools.lib.streams import Streams, KINDS
-    S = Streams(prefix='pv-c04-streams-')
+
+    class CachedStreams(Streams):
+        """a case builds a dozen DWARFInfo objects over the same ten sections: each section is written to disk once per
+        batch of cases and opened afresh for every object (an independent stream each time, as Streams promises)"""
+        def __init__(self, **kw):
+            Streams.__init__(self, **kw)
+            self._paths = {}
+
+        def path_of(self, data):
+            data = bytes(data)
+            if not data:                      # the gzip kind fills the (empty) file it asks for: never shared
+                return Streams.path_of(self, data)
+            if data not in self._paths:
+                self._paths[data] = Streams.path_of(self, data)
+            return self._paths[data]
+
+        def drop_files(self):
+            self._paths = {}
+            Streams.drop_files(self)
+        close = drop_files
+
+    S = CachedStreams(prefix='pv-c04-streams-')
     saved = _OPEN[0]
     _OPEN[0] = lambda data, kind: S.open(data, kind if kind in KINDS else 'bytesio')
     # the drop-owner steps call gc.collect(); the harness' own long-lived data (cases, recorded answers) is kept out of
